@@ -15,7 +15,10 @@ use super::try_sync_error::*;
 
 use std::fmt;
 use std::mem;
+#[cfg(not(logicalshift_desync_verif))]
 use std::sync::*;
+#[cfg(logicalshift_desync_verif)]
+use desync_verif_rt::sync::*;
 use std::collections::vec_deque::*;
 use std::result::{Result};
 
@@ -36,6 +39,7 @@ lazy_static! {
 ///
 /// The default maximum number of threads in a scheduler 
 ///
+#[cfg(not(logicalshift_desync_verif))]
 #[cfg(not(target_arch = "wasm32"))]
 fn initial_max_threads() -> usize {
     MIN_THREADS.max(num_cpus::get()*2)
@@ -44,9 +48,18 @@ fn initial_max_threads() -> usize {
 ///
 /// The default maximum number of threads in a scheduler 
 ///
+#[cfg(not(logicalshift_desync_verif))]
 #[cfg(target_arch = "wasm32")]
 fn initial_max_threads() -> usize {
     0
+}
+
+///
+/// Verification builds: the simulator configures the maximum, so that small pools grow lazily like the default one
+///
+#[cfg(logicalshift_desync_verif)]
+fn initial_max_threads() -> usize {
+    desync_verif_rt::initial_max_threads()
 }
 
 ///
@@ -730,4 +743,27 @@ pub fn sync<Result: Send, TFn: Send+FnOnce() -> Result>(queue: &Arc<JobQueue>, j
 ///
 pub fn try_sync<FnResult: Send, TFn: Send+FnOnce() -> FnResult>(queue: &Arc<JobQueue>, job: TFn) -> Result<FnResult, TrySyncError> {
     scheduler().try_sync(queue, job)
+}
+
+///
+/// Verification-only accessors (read-only, no locking side effects beyond the limit setter)
+///
+#[cfg(logicalshift_desync_verif)]
+impl Scheduler {
+    /// (thread count, busy thread count, schedule length, maximum threads), or None if a lock is held
+    pub fn verif_peek(&self) -> Option<(usize, usize, usize, usize)> {
+        let threads     = self.core.threads.verif_peek(|threads| {
+            let busy = threads.iter().filter(|(busy, _)| busy.verif_peek(|busy| *busy).unwrap_or(true)).count();
+            (threads.len(), busy)
+        })?;
+        let schedule    = self.core.schedule.verif_peek(|schedule| schedule.len())?;
+        let max_threads = self.core.max_threads.verif_peek(|max_threads| *max_threads)?;
+
+        Some((threads.0, threads.1, schedule, max_threads))
+    }
+
+    /// Sets the thread limit without eagerly spawning threads
+    pub fn verif_set_max_threads(&self, max_threads: usize) {
+        *self.core.max_threads.lock().expect("Max threads lock") = max_threads;
+    }
 }
